@@ -383,6 +383,7 @@ func blackBox(c *hlib.Ctx, prop string) {
 	case "C11":
 		bbCloseDrains(c)
 		bbOverflowEpisodes(c, true)
+		bbSinkFaults(c)
 		fatalPath(c)
 	case "C12":
 		bbDeliversWhenIdle(c)
